@@ -344,6 +344,34 @@ func runC05(c *Ctx) {
 		c.verdict(len(bad) == 0 && n >= 4, c.nm(g)+" | cache, database and network lookups use the requested hash", c.P.Pos(g.Pos()), fmt.Sprintf("%d lookups keyed by blockHash", n), join(bad)+fmt.Sprintf(" (%d lookups)", n), sites...)
 	})
 
+	c.rule("C05.V4", "the call fails rather than hand back nothing: GetCFilter returns the query's targetFilter with a nil error only behind targetFilter != nil (a finished range that did not contain the requested block must end in ErrFilterFetchFailed, not in (nil, nil))", func() {
+		fn := c.fn(fnGetCF)
+		tf := q("targetFilter")
+		var rets, cmps []ssa.Instruction
+		for _, in := range find(fn, isExit) {
+			r := in.(*ssa.Return)
+			if !ir.IsNil(ir.RetVal(r, 1)) {
+				continue
+			}
+			if ir.DerivesFrom(ir.RetVal(r, 0), func(v ssa.Value) bool {
+				fa, ok := v.(*ssa.FieldAddr)
+				return ok && ir.FieldOfAddr(fa) == tf
+			}) {
+				rets = append(rets, in)
+			}
+		}
+		ir.Instrs(fn, func(in ssa.Instruction) {
+			b, ok := in.(*ssa.BinOp)
+			if !ok || (b.Op != token.EQL && b.Op != token.NEQ) {
+				return
+			}
+			if (loadsField(tf)(b.X) && ir.IsNil(b.Y)) || (loadsField(tf)(b.Y) && ir.IsNil(b.X)) {
+				cmps = append(cmps, in)
+			}
+		})
+		c.guarded(fn, equalIs("filterQuery.targetFilter vs nil", cmps, false), 1, "return filterQuery.targetFilter, nil", rets, 1, gDominate)
+	})
+
 	c.rule("C05.P1", "GetCFilter serialises network fetches: the second cache lookup, the range preparation and the query all run with mtxCFilter held, so two callers cannot fetch (and validate against) the same range concurrently and the re-check after the lock sees the other caller's result", func() {
 		fn := c.fn(fnGetCF)
 		res := c.lockResults()
